@@ -3315,7 +3315,19 @@ yin_parse_element_generic(struct lysp_yin_ctx *ctx, enum ly_stmt parent_stmt, st
     }
 
     if ((ctx->xmlctx->status != LYXML_ELEM_CONTENT) || ctx->xmlctx->ws_only) {
+        const char *ws = NULL;
+        size_t ws_len = 0;
+
+        if ((ctx->xmlctx->status == LYXML_ELEM_CONTENT) && !ctx->xmlctx->dynamic && ctx->xmlctx->value_len &&
+                ((*element)->kw == LY_STMT_EXTENSION_INSTANCE)) {
+            ws = ctx->xmlctx->value;
+            ws_len = ctx->xmlctx->value_len;
+        }
         LY_CHECK_GOTO(ret = lyxml_ctx_next(ctx->xmlctx), cleanup);
+        if (ws && (ctx->xmlctx->status == LYXML_ELEM_CLOSE)) {
+            /* white space is the whole content of the element, not formatting between its children */
+            LY_CHECK_GOTO(ret = lydict_insert(ctx->xmlctx->ctx, ws, ws_len, &(*element)->arg), cleanup);
+        }
         while (ctx->xmlctx->status == LYXML_ELEMENT) {
             /* parse subelements */
             ret = yin_parse_element_generic(ctx, (*element)->kw, &new);
